@@ -289,6 +289,13 @@ def copy_visit_rule(ctx, R2, mod=None, M=None, only=None):
             bad = True
         for f in ef:
             if 'visit' not in mi.recursed.get(f, set()):
+                # the recursion is not traced by the field matrix (a loop over several fields, a helper): the evaluated law decides - visiting every family member of this
+                # class with a renaming callback must rename every occurrence (exprobj, C15.D7)
+                from .. import exprobj as _xo
+                rows_ = [r_ for r_ in _xo.laws(ctx)['visit-rename'] if r_[0].split(':')[1:2] == [c[4:]]]
+                if len(rows_) >= 3 and all(r_[1] for r_ in rows_):
+                    R2.note('%s.visit: the visit of field %s is not traced structurally; %d renaming visits of %s nodes, evaluated from the source, rename every occurrence' % (c, f, len(rows_), c))
+                    continue
                 R2.violation(c + '.visit', '%s.visit:%s' % (c, f), '%s.visit does not visit sub-expression field %s' % (c, f), where(mod, mi.fn))
                 bad = True
         if c not in LEAVES:
@@ -311,6 +318,13 @@ def copy_visit_rule(ctx, R2, mod=None, M=None, only=None):
                                       if ff == f and meth == 'visit' and (call.lineno, call.col_offset) < rpos]
                     compared_before = [n for n in ast.walk(mi.fn) if isinstance(n, ast.Compare)
                                        and (n.lineno, n.col_offset) < rpos and _mentions_field(n, f, mi)]
+                    untraced_ = not any(ff == f and meth == 'visit' for (ff, meth, call) in mi.calls)
+                    if (not visited_before or not compared_before) and untraced_:
+                        # the field matrix does not see how this field is visited (a loop over several fields): the renaming visits evaluated from the source decide
+                        from .. import exprobj as _xo
+                        rows_ = [r_ for r_ in _xo.laws(ctx)['visit-rename'] + _xo.laws(ctx)['visit-id'] if r_[0].split(':')[1:2] == [c[4:]]]
+                        if len(rows_) >= 6 and all(r_[1] for r_ in rows_):
+                            continue
                     if not visited_before:
                         R2.violation(c + '.visit', '%s.visit:return-self-before-visit:%s' % (c, f),
                                      '%s.visit can return self before visiting sub-expression field %s (callback/substitution skipped there)' % (c, f),
